@@ -157,9 +157,69 @@ theorem C40_inline_unsubscribe_only_that_id (s : Server) (hx : IdxOK s.topics) (
       rw [hat, if_neg (fun h => hqf h.1)]
       exact hq
 
+/-! ### Non-vacuity: `c06State` (`Mochi/Props/C06.lean`) — inline subscriber 7 on `a/b`, inline subscriber 9 on `a/#`,
+three plain subscribers, two share groups -/
+
+/-- both inline subscribers hold an entry matching `a/b` … -/
+theorem c06_inline_matching : InlineMatching c06State.topics [97, 47, 98] 7 ∧ InlineMatching c06State.topics [97, 47, 98] 9 :=
+  ⟨⟨[[97], [98]], { filter := [97, 47, 98], ident := 7 }, by decide, by decide⟩,
+   ⟨[[97], [35]], { filter := [97, 47, 35], ident := 9 }, by decide, by decide⟩⟩
+
+/-- … the inline publish of `a/b` (QoS 0) is accepted … -/
+theorem c06_inline_accepted (p o : Nat) : AcceptedInline (withSeeds c06State p o) [97, 47, 98] :=
+  ⟨(by decide : (getObj c06State 0).inline = true), by decide, by decide,
+   (by decide : (getObj c06State 0).recvQuota ≠ 0), (by decide : assocGet c06State.pubHook [97, 47, 98] = none),
+   (by decide : ∀ m ∈ (getObj c06State 0).inflight, 0 ≤ m.expiry)⟩
+
+set_option maxRecDepth 4000 in
+/-- … and reaches both, once each, besides the connections 2, 3 (`p`: the origin is the inline client), 1 of the plain
+    subscribers, 8 (`m3`, group `h`) and 6 or 7 (`m1` or `m2`, group `g`, by `pickSeed`) -/
+example :
+    (step (withSeeds c06State 0 0) (.inlinePublish [97, 47, 98] [1] false 0)).2.filterMap pubConn = [2, 3, 1, 8, 6] ∧
+    (step (withSeeds c06State 3 0) (.inlinePublish [97, 47, 98] [1] false 0)).2.filterMap pubConn = [2, 3, 1, 8, 7] ∧
+    (step (withSeeds c06State 0 0) (.inlinePublish [97, 47, 98] [1] false 0)).2.filter isInlineOut =
+      [Out.inline 7 [97, 47, 98] [1], Out.inline 9 [97, 47, 98] [1]] := by decide
+
+/-- the theorem, instantiated (shared subscriptions match: the `_shared` form) -/
+example (p o : Nat) : Out.inline 7 [97, 47, 98] [1] ∈ (step (withSeeds c06State p o) (.inlinePublish [97, 47, 98] [1] false 0)).2 ∧
+    Out.inline 9 [97, 47, 98] [1] ∈ (step (withSeeds c06State p o) (.inlinePublish [97, 47, 98] [1] false 0)).2 ∧
+    Out.inline 8 [97, 47, 98] [1] ∉ (step (withSeeds c06State p o) (.inlinePublish [97, 47, 98] [1] false 0)).2 := by
+  have hr := (withSeeds_reach c06State_reach p o).inv
+  have h := (C40_inline_publish_reaches_exactly_shared (withSeeds c06State p o) hr.1 hr.2.1 hr.2.2.1 [97, 47, 98] [1]
+    false (c06_inline_accepted p o)).2.1
+  refine ⟨(h 7 _ _).mpr ⟨rfl, rfl, c06_inline_matching.1⟩, (h 9 _ _).mpr ⟨rfl, rfl, c06_inline_matching.2⟩, ?_⟩
+  intro hm
+  obtain ⟨_, _, q, sub, hq, _⟩ := (h 8 _ _).mp hm
+  unfold inlineAt at hq
+  have hall : ∀ n ∈ c06State.topics.nodes, assocGet n.inline 8 = none := by decide
+  cases hn : getNode c06State.topics.nodes q with
+  | none =>
+    have : getNode (withSeeds c06State p o).topics.nodes q = none := hn
+    rw [this] at hq; cases hq
+  | some n =>
+    have : getNode (withSeeds c06State p o).topics.nodes q = some n := hn
+    rw [this] at hq
+    have := hall n (getNode_mem hn)
+    simp only [Option.bind_some] at hq
+    rw [this] at hq; cases hq
+
+set_option maxRecDepth 4000 in
+/-- after `InlineUnsubscribe(7, a/b)` a publish of `a/b` still reaches inline subscriber 9, and 7 no longer -/
+example :
+    (publishToSubscribers (step c06State (.inlineUnsubscribe 7 [97, 47, 98])).1 c03Msg).2.filter isInlineOut =
+      [Out.inline 9 [97, 47, 98] [1]] := by decide
+
+/-- the theorem, instantiated -/
+example : Out.inline 9 [97, 47, 98] [1] ∈
+    (publishToSubscribers (step c06State (.inlineUnsubscribe 7 [97, 47, 98])).1 c03Msg).2 :=
+  (C40_inline_unsubscribe_only_that_id c06State c06State_reach.inv.1.idx 7 [97, 47, 98] (by decide) _ rfl c03Msg rfl
+    (by decide) (by decide)).2.1 9 (by decide) c06_inline_matching.2
+
 end Mochi.Broker
 
 #print axioms Mochi.Broker.inline_delivery_exact
 #print axioms Mochi.Broker.C40_inline_publish_reaches_exactly
 #print axioms Mochi.Broker.C40_inline_publish_reaches_exactly_shared
 #print axioms Mochi.Broker.C40_inline_unsubscribe_only_that_id
+#print axioms Mochi.Broker.c06_inline_matching
+#print axioms Mochi.Broker.c06_inline_accepted
